@@ -11,6 +11,8 @@ def _proj(op, line):
         if not o or o[0] != "ok":
             return line
         kv = dict(x.split("=", 1) for x in w[1:] if "=" in x)
+        if kv.get("op", "0") != "0":
+            return "ok ? ? " + o[3]      # an operator's ResetSession: the last epoch starts at a schedule dependent moment
         if kv.get("early") == "1" and kv.get("reset") != "0":
             return "ok ? ? " + o[3]      # sends racing with a Logon-triggered reset: count of the last epoch is schedule dependent
         return " ".join(o[:4])
@@ -22,11 +24,11 @@ PROPS["C02"] = {
     "project": _proj,
     "claim": ('THEOREMS (Lean kernel, no sorry): (A) C02_all_schedules - in the lock-level model Qfx.Conc (thread 0 = session goroutine running any list of '
               'sendInReplyTo / dropAndSendInReplyTo / SendAppMessages / dropAndReset / EnqueueBytesAndSend / resendMessages calls with any flush outcomes, any number of '
-              'application threads each calling queueForSend any number of times, every entry point a program of atomic steps with readSeq and persist as SEPARATE steps, '
+              'foreign goroutines each running any sequence of SendToTarget (queueForSend) and ResetSession (ShutdownNow\'s Logout through sendInReplyTo on the caller\'s goroutine, then dropAndReset) calls, every entry point a program of atomic steps with readSeq and persist as SEPARATE steps, '
               'sync.Mutex / sync.RWMutex enabledness) the monitor MonitorC02 accepts the event trace of EVERY schedule of any length: numbers handed out consecutive with no gap or '
               'repeat and store.next = last+1, first-time messages on the wire in increasing order per epoch, with persistence every first-time write of n after the store saved n, '
               'no first-time write between the replayed messages of one ResendRequest answer; C02_final_store - the store equals what the trace says after every schedule; '
-              'three kernel-decided witnesses that the statement is FALSE without sendMutex, without resendMutex.RLock, and with persist after the flush; '
+              'four kernel-decided witnesses that the statement is FALSE without sendMutex, without resendMutex.RLock in queueForSend, without it in sendInReplyTo (operator calling ResetSession during a replay), and with persist after the flush; '
               'the programs are pinned to the regenerated lock skeletons of the source (C02_skel_*, C02_send_path_functions). (B) C02_seq - in the sequential session model '
               '(the one the correspondence check compares with the real session event by event) for ALL configurations and ALL event histories: every save happens at the tracked next '
               'outbound number which then advances by one, reset => 1, the tracked number is the store\'s at the end, and with persistence every first-time write (admin or application) '
@@ -36,12 +38,12 @@ PROPS["C02"] = {
     "note": ('Lean kernel + propext/Classical.choice/Quot.sound. ASSUMED: the Go memory model and sync.Mutex / sync.RWMutex semantics as modelled (lockS enabled iff no holder, rlockR iff no writer, '
              'lockR iff no writer and no readers - a superset of Go\'s schedules); atomicity at the granularity of lock operations and protected actions (the steps of Qfx.Conc.Step); '
              'store operations succeed; the application does not submit a Logon with ResetSeqNumFlag through SendToTarget; only the session goroutine calls the session-side entry points '
-             '(ResetSession from another goroutine is outside the model). TIE: harness/extract.go regenerates the source-order lock/protected-action skeleton of every send-path function '
+             '(ResetSession from another goroutine is IN the model; its unsynchronised reads of session.State are not). TIE: harness/extract.go regenerates the source-order lock/protected-action skeleton of every send-path function '
              'on every run; Props/C02.lean proves each equals the model program (removing or reordering a lock breaks a named obligation => VIOLATION, after the stress family has searched '
              'for a failing round); the sequential model is tied by the sess correspondence (store mutations, wire writes, sender counter per event). Defect fixed on the way: '
              'handleLogon / Connect reset the store outside sendMutex and without dropping the queue (repo commit "fix: Logon-triggered sequence resets drop the send queue under the send lock").'),
     "rule": ('sess: see C01 (projection: store save/incS/setS/reset items, wire writes, sender counter). conc: one case = one stress round of the real engine: store mem|file (1/8), '
-             'persistence on (4/5), 4/8/16/32 sender goroutines, 120-360 sends (thorough 300-1500), senders started before the Logon in 1/4 of the rounds, session is the initiator in 1/4, Logon-triggered reset '
+             'persistence on (4/5), 4/8/16/32 sender goroutines, 120-360 sends (thorough 300-1500), senders started before the Logon in 1/4 of the rounds, session is the initiator in 1/4, an operator goroutine calls the public quickfix.ResetSession in 3/10 (1/10 at a pseudo-random point of the script, 2/10 from inside a multi-message replay: started by the ToApp callback of the second replayed message), Logon-triggered reset '
              '(peer 141=Y or ResetOnLogon) in 1/3, 0-3 ResendRequests over ranges already seen, 0-3 TestRequests, 0-2 Heartbeats at pseudo-random points, outbound channel capacity 0/1/4/64, '
              'Gosched / microsecond sleeps from the case PRNG; rounds run in a worker process so that an engine that corrupts memory is an observation (crashed), not a harness failure; '
              'a corpus of 12 rounds (parameter sets on which the unchanged tree or the sanity mutants failed) runs first; distinct = distinct (store, persist, early, reset, senders, replay seen) shapes'),
